@@ -183,6 +183,8 @@ pub fn new_sender(spec: &SenderSpec) -> Result<(Sender, Arc<Recorder>), String> 
 pub struct RxOpts {
     pub config: RxConfig,
     pub script: Script,
+    /// the application calls cleanup() after every push (a timer)
+    pub cleanup_every_push: bool,
 }
 
 impl Default for RxOpts {
@@ -193,6 +195,7 @@ impl Default for RxOpts {
                 ..Default::default()
             },
             script: Script::default(),
+            cleanup_every_push: false,
         }
     }
 }
@@ -224,6 +227,9 @@ pub fn receive<'a>(
             }
         }
         let r = util::with_budget(PUSH_BUDGET, || rx.push(endpoint, b, t));
+        if opts.cleanup_every_push {
+            rx.cleanup(t);
+        }
         pushed += 1;
         match r {
             Ok(_) => push_ok += 1,
